@@ -34,6 +34,8 @@ type Plan struct {
 	Stick      int       `json:"stick"`
 	CrashAt    int       `json:"crash_at"`
 	TornAt     int       `json:"torn_at"`
+	SoftKill   bool      `json:"soft_kill"`
+	SoftKillAt int       `json:"soft_kill_at"`
 	TornN      int       `json:"torn_n"`
 	Inject     []*Inject `json:"inject"`
 	TracePath  string    `json:"trace"`
